@@ -191,6 +191,10 @@ func (c *Ctx) Inconclusive(why string) {
 // reports and exits after this case and the parent restarts the shard behind it.
 func (c *Ctx) Poison() { c.w.poisoned = true }
 
+// Recycle asks for a fresh worker process after this case for housekeeping reasons (e.g. goroutines that finished
+// streams leave behind); unlike Poison it does not count towards the restart limit of the shard.
+func (c *Ctx) Recycle() { c.w.poisoned = true; c.w.recycled = true }
+
 // Agg is the aggregate over all workers, used for evidence and the Minimum rule.
 type Agg struct {
 	Evals        int64
